@@ -2939,3 +2939,102 @@ R("erc20lock-args-local-with-own-test", ["C18"],
 		return nil, err
 	}
 	receiver := args[24:64]"""))
+
+# ------------------------------------------------------------------ more refactors for round-3 rules
+R("clean-built-in-steps", ["C15"],
+  ("data/ethereum/tracker.go", """	return &Tracker{
+		Type:        t.Type,
+		State:       t.State,
+		TrackerName: t.TrackerName,
+	}""", """	c := &Tracker{Type: t.Type}
+	c.State = t.State
+	c.TrackerName = t.TrackerName
+	return c"""))
+R("current-funds-named-key", ["C14"],
+  ("data/governance/proposal_fund_store.go", """	keyTotal := assembleTotalFundsKey(proposalID)
+	funds, err := pf.get(keyTotal)
+	if err != nil {
+		funds = balance.NewAmount(0)
+	}
+	return funds""", """	if total, err := pf.get(assembleTotalFundsKey(proposalID)); err == nil {
+		return total
+	}
+	return balance.NewAmount(0)"""))
+R("rangepair-bounds-in-locals", ["C18"],
+  ("data/governance/validations.go", "	ok, err := opt.PerBlockFees.CheckInRange(*minPerBlockFee, *maxPerBlockFee)", """	lo, hi := *minPerBlockFee, *maxPerBlockFee
+	ok, err := opt.PerBlockFees.CheckInRange(lo, hi)"""))
+R("olvm-state-in-local", ["C06", "C17"],
+  ("action/olvm/handler.go", """	evmTx := vm.NewEVMTransaction(
+		ctx.StateDB,""", """	stateDB := ctx.StateDB
+	evmTx := vm.NewEVMTransaction(
+		stateDB,"""))
+R("loadstate-range-by-index", ["C11"],
+  ("data/delegation/store.go", """	for _, dm := range state.DelegatorBoundedAmounts {
+		err := st.SetDelegatorBoundedAmount(dm.Address, *dm.Amount)
+		if err != nil {
+			return
+		}
+	}""", """	for i := 0; i < len(state.DelegatorBoundedAmounts); i++ {
+		dm := state.DelegatorBoundedAmounts[i]
+		if err := st.SetDelegatorBoundedAmount(dm.Address, *dm.Amount); err != nil {
+			return
+		}
+	}"""))
+R("validate-fee-local-min", ["C07", "C02"],
+  ("action/base.go", """	minFee := feeOpt.MinFee()
+	if minFee.Amount.BigInt().Cmp(fee.Price.Value.BigInt()) > 0 {""", """	minFee := feeOpt.MinFee()
+	lowest := minFee.Amount.BigInt()
+	if lowest.Cmp(fee.Price.Value.BigInt()) > 0 {"""))
+
+ALLP = ["C%02d" % i for i in range(1, 21)]
+R("debug-logs-added-in-handlers", ALLP,
+  ("action/transfer/send.go", "	balances := ctx.Balances\n\n	send := &Send{}\n", "	balances := ctx.Balances\n\n	ctx.Logger.Debug(\"decoding send\", len(tx.Data))\n	send := &Send{}\n", 1),
+  ("action/staking/stake.go", "	zero := balance.NewAmountFromInt(0)\n", "	zero := balance.NewAmountFromInt(0)\n	ctx.Logger.Debug(\"checking stake address\", v.Address)\n", 1))
+R("new-readonly-store-getters", ALLP,
+  ("data/delegation/store.go", "// Validator data\n", """// HasValidatorAmount tells whether a total is recorded for the validator
+func (st *DelegationStore) HasValidatorAmount(validatorAddress keys.Address) bool {
+	amt, err := st.GetValidatorAmount(validatorAddress)
+	return err == nil && amt != nil && !amt.IsZero()
+}
+
+// Validator data
+""", 1),
+  ("data/governance/proposal_fund_store.go", "func assembleTotalFundsKey(", """// HasFunds tells whether anything was contributed to the proposal
+func (pf *ProposalFundStore) HasFunds(proposalID ProposalID) bool {
+	return !pf.GetCurrentFundsForProposal(proposalID).IsZero()
+}
+
+func assembleTotalFundsKey(""", 1))
+
+R("send-move-extracted-into-helper", ALLP,
+  ("action/transfer/send.go", """	err = balances.MinusFromAddress(send.From.Bytes(), coin)
+	if err != nil {
+		log := fmt.Sprint("error debiting balance in send transaction ", send.From, "err", err)
+		return false, action.Response{Log: log}
+	}
+
+	err = balances.AddToAddress(send.To.Bytes(), coin)
+	if err != nil {
+		log := fmt.Sprint("error crediting balance in send transaction ", send.From, "err", err)
+		return false, action.Response{Log: log}
+	}
+
+	return true, action.Response{Events: action.GetEvent(send.Tags(), "send_tx")}
+}""", """	if err = moveCoin(balances, send, coin); err != nil {
+		return false, action.Response{Log: err.Error()}
+	}
+
+	return true, action.Response{Events: action.GetEvent(send.Tags(), "send_tx")}
+}
+
+// moveCoin debits the sender and credits the receiver
+func moveCoin(balances *balance.Store, send *Send, coin balance.Coin) error {
+	if err := balances.MinusFromAddress(send.From.Bytes(), coin); err != nil {
+		return errors.Wrap(err, "error debiting balance in send transaction")
+	}
+	if err := balances.AddToAddress(send.To.Bytes(), coin); err != nil {
+		return errors.Wrap(err, "error crediting balance in send transaction")
+	}
+	return nil
+}"""),
+  ("action/transfer/send.go", "import (\n", "import (\n\t\"github.com/Oneledger/protocol/data/balance\"\n", 1))
